@@ -22,7 +22,7 @@ TNext ==
             /\ chk' = [ok |-> /\ r.resp = want
                               /\ r.answers = 1                       \* exactly one answer, to the submitter only
                               /\ r.ret = (IF want = "accepted" THEN "ok" ELSE "err")
-                              /\ r.elapsed_ms < 1000,                \* submitting never blocks the connection
+                              /\ r.elapsed_ms < 5000,                \* submitting never blocks the connection (a blocked submit waits for the worker: for ever here)
                        want |-> want, got |-> r.resp, pid |-> r.pid]
             /\ qlen' = IF want = "accepted" /\ ~worker THEN qlen + 1 ELSE qlen
             /\ pend' = IF want = "accepted" THEN pend \cup {<<r.pid, r.valid>>} ELSE pend
@@ -31,7 +31,8 @@ TNext ==
             /\ worker' = TRUE /\ qlen' = 0 /\ chk' = [ok |-> TRUE] /\ UNCHANGED <<pend, Qc, mode>>
        [] r.op = "drain" ->
             \* everything accepted so far has been looked at by the worker: the credit service has received
-            \* exactly the valid ones, once each, unchanged (nothing when it is down)
+            \* exactly the valid ones, once each, unchanged (nothing when it is down; once each also when the service
+            \* takes the receipt and its answer is lost)
             LET got == {<<r.forwarded[i][1], r.forwarded[i][2]>> : i \in DOMAIN r.forwarded}
                 want == IF mode = "down" THEN {} ELSE {<<p[1], TRUE>> : p \in {x \in pend : x[2]}}
             IN /\ chk' = [ok |-> worker => (got = want /\ Len(r.forwarded) = Cardinality(got) /\ r.left = 0), want |-> want, got |-> got]
